@@ -76,13 +76,14 @@ def run_check(prop_id, tier, seed, replay=None):
         shutil.rmtree(wd, ignore_errors=True)
     if tier == "thorough" and not broken:
         # independent re-check of the compiled proofs and their whole dependency closure
-        p = cm.run(["timeout", "3000", "coqchk", "-silent", "-o", "-Q", "theories", "Mcap", "-Q", "properties", "McapProps", "McapProps.%s" % prop_id],
+        mods = ["McapProps.%s" % os.path.basename(f)[:-2] for f in cm.prop_files(prop_id)] or ["McapProps.%s" % prop_id]
+        p = cm.run(["timeout", "6000", "coqchk", "-silent", "-o", "-Q", "theories", "Mcap", "-Q", "properties", "McapProps"] + mods,
                    cwd=cm.COQ, check=False)
         out = p.stdout.decode(errors="replace")
         m = re.search(r"\* Axioms:(.*?)\n\s*\n", out, re.S)
         pinfo["coqchk"] = {"exit": p.returncode, "axioms": (m.group(1).strip() if m else "?")}
         if p.returncode != 0 or not m or m.group(1).strip() != "<none>":
-            broken = "coqchk does not accept properties/%s.vo without axioms: %s" % (prop_id, out[-600:])
+            broken = "coqchk does not accept %s without axioms: %s" % (" ".join(mods), out[-600:])
     if broken:
         concrete = any(v["failing_input"] for v in rep.violations)
         rep.add_violation("proof", broken, ["# theorem/correspondence that no longer checks:", "# " + broken.replace("\n", "\n# ")],
@@ -336,7 +337,7 @@ def check_c13(rep, tier, seed, wd, replay):
     stage["repetition"] = round(time.time() - t0, 1); t0 = time.time()
     # independent writers of DIFFERENT workloads running at the same time (state shared between writers - pools,
     # package-level scratch - only shows when the concurrent writers serialise different content)
-    conc = [(c["id"], gw.script_lines(c["o"], c["calls"], None)) for c in cases[::3]]
+    conc = [(c["id"], gw.script_lines(c["o"], c["calls"], None)) for c in cases[::3][:400]]
     for i in range(16 if tier == "quick" else 64):
         o = g0.wopts()
         calls = [["H", b"p", b"l"]]
@@ -347,7 +348,7 @@ def check_c13(rep, tier, seed, wd, replay):
         conc.append(("c13_maps_%d" % i, gw.script_lines(o, calls, None)))
     conc_runs = 0
     for procs in ((4, 16) if tier == "quick" else (2, 4, 16)):
-        env = dict(os.environ, GOMAXPROCS=str(procs), VERIF_REPS="2" if tier == "quick" else "20", VERIF_GOROUTINES="16")
+        env = dict(os.environ, GOMAXPROCS=str(procs), VERIF_REPS="2" if tier == "quick" else "6", VERIF_GOROUTINES="16")
         raw, crashed = cm.run_sharded(os.path.join(cm.BUILD, "impl"), "writeconc", conc, wd, "conc%d" % procs, nshards=1, extra_env=env)
         for cmd, rc, err in crashed:
             rep.add_violation("executor-crash", "%s exited %s: %s" % (cmd, rc, err), [], failing_input=False)
@@ -370,8 +371,9 @@ def check_c13(rep, tier, seed, wd, replay):
     else:
         spath = os.path.join(wd, "race.script")
         # the race detector costs 5-20x in time and memory: the map-heavy workloads plus the smallest generated ones
-        small = sorted(conc[:len(cases) // 3], key=lambda c: sum(len(l) for l in c[1]))[: (10 if tier == "quick" else 120)]
-        rconc = small + (conc[len(cases) // 3:][:8] if tier == "quick" else conc[len(cases) // 3:])
+        ngen = min(400, len(cases) // 3)
+        small = sorted(conc[:ngen], key=lambda c: sum(len(l) for l in c[1]))[: (10 if tier == "quick" else 120)]
+        rconc = small + (conc[ngen:][:8] if tier == "quick" else conc[ngen:])
         with open(spath, "w") as f:
             for cid, lines in rconc:
                 f.write("case %s\n%s\nend\n" % (cid, "\n".join(lines)))
@@ -2746,7 +2748,53 @@ def check_c16(rep, tier, seed, wd, replay):
             pcases.append(("c16dmg%d_%d_py" % (bi, j), ["file " + cm.hx(d), "op stream skip=0 emit=0 validate=1", "op ns_messages validate=1 order=file reverse=0",
                                                        "op sk_messages validate=1 order=log reverse=0", "op sk_summary", "op sk_attachments", "op sk_metadata"]))
             pyin["damaged"] += 1
-    _, _, nd3 = py_corr(rep, pcases, wd, "c16pr", "pyread")
+    pyo, _, nd3 = py_corr(rep, pcases, wd, "c16pr", "pyread")
+    # oracle on the Python package's own output (valid files only): every filtered / ordered read is the unfiltered file-order
+    # read of the same file, filtered by topic and [start, end) and put in the requested order
+    def py_blocks(lines):
+        out, cur = [], None
+        for l in lines:
+            if l.startswith("op "):
+                cur = [l, [], None]
+                out.append(cur)
+            elif cur is not None and l.startswith("triple "):
+                cur[1].append(l)
+            elif cur is not None and l.startswith("end "):
+                cur[2] = l
+        return out
+    def tkey(t):
+        m = re.search(r"\| channel id=\d+ schema=\d+ topic=(\S+) .*\| message chan=\d+ seq=\d+ log=(\d+) ", t)
+        return (m.group(1), int(m.group(2))) if m else (None, None)
+    npyo = 0
+    for cid, lines in pcases:
+        if cid.startswith("c16dmg"):
+            continue
+        blocks = py_blocks(pyo.get(cid, []))
+        ref = next((b for b in blocks if b[0] == "op ns_messages validate=1 order=file reverse=0"), None)
+        if ref is None or ref[2] != "end stop":
+            continue
+        for op, triples, end in blocks:
+            f = op.split(" ")
+            if f[1] not in ("ns_messages", "sk_messages") or end != "end stop":
+                continue
+            o = dict(x.split("=", 1) for x in f[2:] if "=" in x)
+            topics = None if "topics" not in o else set(o["topics"].split(","))
+            lo = int(o["start"]) if "start" in o else None
+            hi = int(o["end"]) if "end" in o else None
+            want = [t for t in ref[1] if (topics is None or (tkey(t)[0] if tkey(t)[0] != "-" else "") in topics or tkey(t)[0] in topics)
+                    and (lo is None or tkey(t)[1] >= lo) and (hi is None or tkey(t)[1] < hi)]
+            npyo += 1
+            if sorted(triples) != sorted(want):
+                rep.add_violation("oracle", "case %s: Python %s returned %d messages, the unfiltered file-order read filtered the same way has %d (%s)"
+                                  % (cid, f[1], len(triples), len(want), op), ["# mode pyread", "case " + cid] + lines + ["end"])
+                continue
+            if o.get("order", "log") == "log":
+                ts = [tkey(t)[1] for t in triples]
+                desc = o.get("reverse") == "1" and (f[1] == "ns_messages" or any(l2.startswith("sk ") for l2 in pyo.get(cid, [])))
+                if ts != sorted(ts, reverse=desc):
+                    rep.add_violation("oracle", "case %s: Python %s log-time read is not in %s log-time order (%s)" % (cid, f[1], "descending" if desc else "ascending", op),
+                                      ["# mode pyread", "case " + cid] + lines + ["end"])
+    st["py_filter_order_checks"] = npyo
     wcases = []
     for name, w in works:
         po = w["opts"]
@@ -2813,12 +2861,17 @@ def replay_file(path):
         for cid, lines in cases:
             heads = set(x.split(" ")[0] for x in lines)
             mode = ("lex" if "lopts" in heads else "read" if "ropts" in heads else "parse" if "parse" in heads else "ros1msg" if "msgdef" in heads
-                    else "bag" if "bag" in heads else "db3" if "db" in heads else "write")
+                    else "bag" if "bag" in heads else "db3" if "db" in heads else "pywrite" if "popts" in heads
+                    else "pyread" if ("op" in heads and "file" in heads) else "write")
             if mode in ("write", "bag") and not any(x.startswith("lib ") for x in lines):
                 lines = lines[:1] + ["lib " + cm.hx(lib)] + lines[1:]
             print("=== case %s (mode %s)" % (cid, mode))
             for exe, name in ((os.path.join(cm.BUILD, "impl"), "implementation"), (os.path.join(cm.BUILD, "model"), "model")):
-                raw, crashed = cm.run_sharded(exe, mode, [(cid, lines)], wd, "rp_" + name, nshards=1, timeout=120)
+                prefix = None
+                if mode.startswith("py") and name == "implementation":
+                    exe, prefix = PY_HARNESS, [sys.executable]
+                raw, crashed = cm.run_sharded(exe, mode, [(cid, lines)], wd, "rp_" + name, nshards=1, timeout=120, prefix=prefix,
+                                              extra_env=dict(os.environ, VERIF_REPO=cm.REPO))
                 print("--- %s" % name)
                 for l in raw.get(cid, ["<no output>"]):
                     print("   " + (l if len(l) < 400 else l[:400] + "..."))
